@@ -47,7 +47,11 @@ Segs == <<
   Seg("open", "p", "<p class=z id='i'>", <<A("class", 3, "z", 9), A("id", 11, "'i'", 14)>>),
   Seg("self", "b", "<b class=\"\" d={e}/>", <<A("class", 3, "\"\"", 9), A("d", 12, "{e}", 14)>>),
   [Seg("special", "style", "<style></style>", <<>>) EXCEPT !.body = 7],
-  [Seg("special", "script", "<script src=\"a\"></script>", <<A("src", 8, "\"a\"", 12)>>) EXCEPT !.body = 16] >>
+  [Seg("special", "script", "<script src=\"a\"></script>", <<A("src", 8, "\"a\"", 12)>>) EXCEPT !.body = 16],
+  [Seg("special", "script", "<script>i<</script>", <<>>) EXCEPT !.body = 8],           \* the body ends in "<" right before the closing tag
+  [Seg("special", "style", "<style>a</</style>", <<>>) EXCEPT !.body = 7],             \* ... in "</"
+  Seg("open", "p", "<p k=l\n m=n\n>", <<A("k", 3, "l", 5), A("m", 8, "n", 10)>>),      \* a tag written over several lines, unquoted values end the lines
+  Seg("open", "a", "<a x=y\r\nz>", <<A("x", 3, "y", 5), A("z", 8, NONE, 0)>>) >>
 
 VARIABLES doc, xml, elems, evs, open, nseg
 vars == <<doc, xml, elems, evs, open, nseg>>
